@@ -169,7 +169,7 @@ SPEC = {
     "theorems": [T + n for n in [
         "tables_pinned", "checked_sites", "get_matches_spec", "check_sound_agree", "check_sound",
         "reported_sizes_true", "rejected_differs", "check_complete", "check_total", "vector_free_agree",
-        "collection_sites_covered", "property_uses_collected", "check_layout_sound",
+        "collection_sites_covered", "diagnostic_pinned", "property_uses_collected", "check_layout_sound",
         "check_layout_reports_true_sizes", "buffer_arrays_not_validated",
     ]],
     "harness": "c19",
